@@ -1126,7 +1126,7 @@ pub fn run_c15(s: &mut Sink) {
     }
     // full 2^32 immediates for one opcode per renderer shape (thorough)
     if thorough {
-        let shapes: [u8; 8] = [0x07, 0x20, 0x40, 0x62, 0x15, 0x85, 0xd4, 0x16];
+        let shapes: [u8; 7] = [0x07, 0x20, 0x40, 0x62, 0x15, 0x85, 0xd4];
         for &opc in &shapes {
             for top in 0..=255u32 {
                 let idx = g;
